@@ -131,10 +131,15 @@ func vpC09NewTarget(name string, h *vpKMHist, recs []*CNode, cacheNode *Node) *v
 }
 
 func (t *vpC09Target) chain(pledging bool) *Chain {
+	return t.chainFor(pledging, t.accId)
+}
+
+// chainFor: the pledging node's own chain, or the (state-carrying) chain of id.
+func (t *vpC09Target) chainFor(pledging bool, id crypto.Hash) *Chain {
 	if pledging && t.plg != nil {
 		return vpKMChain(t.node, t.plg.IdForNetwork, t.plg)
 	}
-	return vpKMChain(t.node, t.accId, nil)
+	return vpKMChain(t.node, id, nil)
 }
 
 type vpC09Query struct {
@@ -152,7 +157,7 @@ func TestVP_C09_finalization(t *testing.T) {
 	c := kit.New(t, "C09", "rapid: G-membership histories with real keys (7..10 genesis quick / ..24 thorough, 0..8 lifecycle operations, removals below 7 allowed), non-mainnet id; per history 6 base queries: chain (accepted, or the pledging node with round 0), snapshot timestamp from the boundary set, signer subset of size {T-1,T,T+1,n,1,random} of the key vector the code reports at the signing (history, time), honest certificate through the real CoSi API with drawn nonce seeds; twins: mask bit added/removed/moved/>=n, R or s bit flip, snapshot field edit, replay on another snapshot, verification on another history (prefix, extra removal, extra fresh accept) or with keys of another time; every query asked 1..4 times in mixed order with cache Wait() in between; oracle = independent edwards25519 verifier + reference key vector; non-trivial = accepted honest certificate on a history with non-genesis records, or a tampered twin; distinct by snapshot hash+signature+mask+target")
 	c.Require("honest-accepted", "honest-below-threshold", "exact-threshold", "mask-added", "mask-removed", "mask-moved", "mask-bit>=n", "sig-R-flip", "sig-s-flip",
 		"snapshot-edit", "replay-other-snapshot", "other-history", "other-history-accepted", "other-time-keys", "cache-hit", "cache-miss", "pledging-chain-round0", "non-genesis-history",
-		"removal-window", "threshold-unreachable", "no-signature")
+		"removal-window", "threshold-unreachable", "no-signature", "accepted-chain-round0")
 	kit.SetChecks(kit.N(800, 20000))
 	cache := vpKMNewCache()
 	defer cache.Close()
@@ -199,7 +204,16 @@ func TestVP_C09_finalization(t *testing.T) {
 			if rapid.IntRange(0, 7).Draw(rt, lbl+"_othertime") == 0 {
 				signTs = vpKMDrawTime(rt, h, lbl+"_signts")
 			}
-			chain := signT.chain(pledging)
+			// the chain the snapshot sits on: usually the first genesis node's, or any
+			// other node of the history (freshly accepted ones included)
+			accId := main.accId
+			if rapid.IntRange(0, 2).Draw(rt, lbl+"_anychain") == 0 {
+				accId = main.recs[rapid.IntRange(0, len(main.recs)-1).Draw(rt, lbl+"_chainrec")].IdForNetwork
+			}
+			chain := signT.chainFor(pledging, accId)
+			if !pledging && round == 0 {
+				c.Class("accepted-chain-round0")
+			}
 			snap := mkSnap(chain.ChainId, round, ts, lbl)
 			_, signKeys := chain.ConsensusKeys(round, signTs)
 			signIds, _ := chain.ConsensusKeys(round, signTs)
@@ -385,8 +399,8 @@ func TestVP_C09_finalization(t *testing.T) {
 				cache.Wait()
 			}
 			tg := q.target
-			chain := tg.chain(q.pledging)
 			s := q.snap
+			chain := tg.chainFor(q.pledging, s.NodeId)
 			hits0 := cache.Metrics.Hits()
 			gotIds, got := chain.verifyFinalization(s)
 			hit := cache.Metrics.Hits() > hits0
